@@ -436,7 +436,7 @@ def r5(ctx: Ctx) -> None:
                             else:
                                 names.append("?")
                         cells.add(tuple(names))
-                ctx.check(cells == {("1", "2"), ("2", "1")} and len(sts) == 2, f, l.node, "each configured correlation is written to both mirrored cells", "corr[i1, i2] = corr[i2, i1] = corr", str(sorted(cells)))
+                ctx.check(cells == {("1", "2"), ("2", "1")} and len(sts) == 2, f, l.node, "each configured correlation is written to both mirrored cells", "corr[i1, i2] = corr[i2, i1] = corr", str(sorted(cells)), guard="text", guard_text=__import__("ast").unparse(f.node))
         # covariance and Cholesky
         ch = [e for e in calls(p, into_loops=False) if e.name == "cholesky"]
         if not ch:
@@ -489,7 +489,7 @@ def r5(ctx: Ctx) -> None:
                 yes, no = elt[2], elt[3]
                 ok = yes[0] == "sub" and _is_call(yes[2], "index") and yes[2][1][1] == cid and yes[2][2][0] == b and no[0] == "sub" and _is_call(no[2], "index") and no[2][1][1] == other_ids[0] and no[2][2][0] == b
                 ok = ok and _drift_source(no[1]) == [other_ids[0]] and "standard_normal" not in key(no[1])
-        ctx.check(ok, f, f.node, "rows are returned in the requested market order; zero-volatility markets get their drift and no noise", "np.stack([chol_row[idx(x)] if x in volatile else drift_row[idx(x)] for x in ids])", short(ret)[:80])
+        ctx.check(ok, f, f.node, "rows are returned in the requested market order; zero-volatility markets get their drift and no noise", "np.stack([chol_row[idx(x)] if x in volatile else drift_row[idx(x)] for x in ids])", short(ret)[:80], guard="text", guard_text=__import__("ast").unparse(f.node))
 
 
 @rule("C12.H1", "mechanism shared with C18: each market is registered with its own configured drift, volatility and initial value (defaults are per market type)", "T12 loop-carried dataflow (same rule as C18.R8)", floor=3)
